@@ -581,7 +581,7 @@ class MPS(State[complex, torch.Tensor]):
             accumulator = torch.tensordot(
                 self.factors[left],
                 operator.to(self.factors[left].device),
-                dims=([1], [0]),
+                dims=([1], [1]),  # (operator @ ket): contract the operator's column index
             )
             accumulator = torch.tensordot(
                 accumulator, self.factors[left].conj(), dims=([0, 2], [0, 1])
@@ -599,7 +599,7 @@ class MPS(State[complex, torch.Tensor]):
 
                 result[left, right] = (
                     torch.tensordot(
-                        partial, operator.to(partial.device), dims=([0, 2], [0, 1])
+                        partial, operator.to(partial.device), dims=([0, 2], [1, 0])
                     )
                     .trace()
                     .item()
